@@ -98,6 +98,19 @@ fn main() {
             if let Some(e) = explorer {
                 out.push("explorer", e);
             }
+            out.push(
+                "representation_differences",
+                J::obj(vec![
+                    (
+                        "confirmation_time_ms",
+                        J::u(explore::CONFIRM_SPENT_US.load(std::sync::atomic::Ordering::Relaxed) / 1000),
+                    ),
+                    (
+                        "unconfirmed_after_budget",
+                        J::u(explore::CONFIRM_SKIPPED.load(std::sync::atomic::Ordering::Relaxed)),
+                    ),
+                ]),
+            );
             if want_digest {
                 out.push(
                     "chunk_digests",
@@ -164,8 +177,9 @@ fn main() {
                 .into_iter()
                 .find(|s| s.name == args[4])
                 .unwrap_or_else(|| std::process::exit(2));
-            let lo = chunk * par::CHUNK;
-            let hi = (lo + par::CHUNK).min(sp.size);
+            let cs = par::chunk_size(sp.size);
+            let lo = chunk * cs;
+            let hi = (lo + cs).min(sp.size);
             for i in lo..hi {
                 let l = par::run_one(&sp, i);
                 let dig: Vec<String> = l.trace.iter().map(|d| format!("{:x}", d)).collect();
